@@ -162,17 +162,18 @@ theorem s2c_main_aux (ts : List Int) (vals : List V) (e0 : Int) (es : List Int) 
   have hWfs : (W.map (fun e => (e.1, f e.2))).Pairwise (fun a b => a.1 ≤ b.1) := by
     rw [List.pairwise_map]; exact hWs
   have hnat : natPairs (W.map (fun e => (e.1, f e.2))) = (W.map (fun e => e.1.toNat)).zip (W.map (fun e => f e.2)) := by
-    simp only [natPairs, List.zip_map', List.map_map, Function.comp]
-  have hrule : ∀ s, startValue (L.map (fun e => (e.1, f e.2))) init = some s →
+    simp only [natPairs, List.zip_map', List.map_map]
+    rfl
+  have hrule : ∀ (init : Option V) s, startValue (L.map (fun e => (e.1, f e.2))) init = some s →
       rule ts vals (e0 :: es) period tr init gvals =
         some (ruleS gv N 0 (bestV gv s) s ((W.map (fun e => e.1.toNat)).zip (W.map (fun e => f e.2)))) := by
-    intro s hs
+    intro init s hs
     have hne : (e0 :: es) ≠ [] := by simp
     simp only [rule, hne, if_false, ← hfdef, List.length_cons, ← hNdef]
     rw [hevs, hs]
     simp only
     rw [hLf, rule_side (fun v => gvals.contains v) N s _ _ _ hPf hWf hAf hWfs, hnat, hgvdef]
-  have hstart := startValue_split init (P.map (fun e => (e.1, f e.2)))
+  have hstart := fun (init : Option V) => startValue_split init (P.map (fun e => (e.1, f e.2)))
     (W.map (fun e => (e.1, f e.2)) ++ A.map (fun e => (e.1, f e.2))) hPf (by
       intro e he
       simp only [List.mem_append] at he
@@ -193,11 +194,12 @@ theorem s2c_main_aux (ts : List Int) (vals : List V) (e0 : Int) (es : List Int) 
     simp only [List.mem_map] at this
     obtain ⟨e, he, hfst⟩ := this
     exact ⟨e, he, by rw [hdo]; exact hfst⟩
-  have hsens : sensorToCategorical ts vals (e0 :: es) period tr init gvals rep =
+  have hsens : ∀ (init : Option V), sensorToCategorical ts vals (e0 :: es) period tr init gvals rep =
       s2cFinish N (s2cCut ts vals (e0 :: es) period tr).1 (s2cCut ts vals (e0 :: es) period tr).2 init gvals rep := by
+    intro init
     have hne : (e0 :: es) ≠ [] := by simp
     simp only [sensorToCategorical, hne, if_false, List.length_cons, ← hNdef]
-  rw [hsens, hcut]
+  rw [hsens init, hcut]
   have hWnS : (W.map (fun e => e.1.toNat)).Pairwise (· ≤ ·) := by
     rw [List.pairwise_map]
     exact hWs.imp (fun h => Int.toNat_le_toNat h)
@@ -218,7 +220,7 @@ theorem s2c_main_aux (ts : List Int) (vals : List V) (e0 : Int) (es : List Int) 
     rw [hplf] at hstart
     obtain ⟨c, hc, hok⟩ := hclean (f pl.2) (W.map (fun e => f e.2)) 0 (W.map (fun e => e.1.toNat))
       (by simp only [List.length_map]) hWnS hWnN
-    refine ⟨c, _, ?_, hrule _ hstart, hok⟩
+    refine ⟨c, _, ?_, hrule init _ (hstart init), hok⟩
     cases init <;> simp only [s2cFinish, ne_eq, not_true_eq_false, if_false, hc]
   | none =>
     have hPnil : P = [] := by simpa using hPl
@@ -247,6 +249,7 @@ theorem s2c_main_aux (ts : List Int) (vals : List V) (e0 : Int) (es : List Int) 
       simp only [List.length_map]
     cases init with
     | some iv =>
+      replace hstart := hstart (some iv)
       simp only at hstart
       by_cases hw0 : w.1.toNat = 0
       · -- first event inside dump 0: the initial value is not inserted; fine unless it is greedy
@@ -269,7 +272,7 @@ theorem s2c_main_aux (ts : List Int) (vals : List V) (e0 : Int) (es : List Int) 
               exact ⟨t, ht, by rw [← hwt]; omega⟩
         obtain ⟨c, hc, hok⟩ := hclean (f w.2) (W'.map (fun e => f e.2)) w.1.toNat
           (W'.map (fun e => e.1.toNat)) hlen' hW'S hW'N
-        refine ⟨c, _, ?_, hrule _ hstart, ?_⟩
+        refine ⟨c, _, ?_, hrule _ _ hstart, ?_⟩
         · simp only [s2cFinish, hw0, ne_eq, not_true_eq_false, if_false]
           rw [hw0] at hc
           exact hc
@@ -278,23 +281,25 @@ theorem s2c_main_aux (ts : List Int) (vals : List V) (e0 : Int) (es : List Int) 
               ruleS gv N 0 (bestV gv (f w.2)) (f w.2)
                 ((W'.map (fun e => e.1.toNat)).zip (W'.map (fun e => f e.2))) := by
             simp only [List.zip_cons_cons, ruleS, hw0, Nat.le_refl, if_true, bestV, hng, Bool.false_eq_true, if_false]
+          simp only [List.map_cons]
           rw [this]
           exact hok
       · -- initial value inserted at dump 0
         obtain ⟨c, hc, hok⟩ := hclean iv (f w.2 :: W'.map (fun e => f e.2)) 0
           (w.1.toNat :: W'.map (fun e => e.1.toNat)) (by simp only [List.length_cons, List.length_map])
           hWnS hWnN
-        refine ⟨c, _, ?_, hrule _ hstart, hok⟩
+        refine ⟨c, _, ?_, hrule _ _ hstart, hok⟩
         simp only [s2cFinish, ne_eq, hw0, not_false_eq_true, if_true]
         exact hc
     | none =>
+      replace hstart := hstart none
       simp only at hstart
       have hhead : (L.map (fun e => (e.1, f e.2))).head?.map (·.2) = some (f w.2) := by
         rw [hL]; simp only [List.nil_append, List.cons_append, List.map_cons, List.head?_cons, Option.map_some]
       rw [hhead] at hstart
       obtain ⟨c, hc, hok⟩ := hclean (f w.2) (W'.map (fun e => f e.2)) w.1.toNat
         (W'.map (fun e => e.1.toNat)) hlen' hW'S hW'N
-      refine ⟨c, _, ?_, hrule _ hstart, ?_⟩
+      refine ⟨c, _, ?_, hrule _ _ hstart, ?_⟩
       · simp only [s2cFinish]
         exact hc
       · -- the first event is extrapolated back to dump 0
@@ -323,9 +328,8 @@ theorem s2c_main_aux (ts : List Int) (vals : List V) (e0 : Int) (es : List Int) 
             have h1 : (bestV gv (f w.2)).getD (f w.2) = f w.2 := by
               simp only [bestV]; split <;> rfl
             rw [h1]
-            have hwn : w.1.toNat = (w.1.toNat - 0 - 1) + 1 := by omega
-            conv => rhs; rw [hwn, List.replicate_succ]
-            simp only [List.cons_append, Nat.add_sub_cancel]
+            rw [← List.cons_append, cons_replicate _ _ (w.1.toNat) (by omega)]
+        simp only [List.map_cons]
         rw [this]
         exact hok
 
